@@ -4,9 +4,9 @@ namespace Chf.Gen
 open Chf.DiamClient
 
 /-- internal/abmf/abmf.go: SendAccountDebitRequest / HandleCCA; internal/context: the sm.Client in field "AbmfClient" -/
-def abmfClient : Cfg := ⟨true, true, true, true, 5000, false⟩
+def abmfClient : Cfg := ⟨true, true, true, true, 5000, false, true, 0⟩
 
 /-- internal/rating/rating.go: SendServiceUsageRequest / HandleSUA; internal/context: the sm.Client in field "RatingClient" -/
-def ratingClient : Cfg := ⟨true, true, true, true, 5000, false⟩
+def ratingClient : Cfg := ⟨true, true, true, true, 5000, false, true, 0⟩
 
 end Chf.Gen
